@@ -83,6 +83,39 @@ pub fn run(ctx: &mut Ctx) {
         }
         ctx.rng = rng;
     }
+    // the same with an engagement (a BLE address of the device's choosing) tuned so that DeviceAuthenticationBytes is EXACTLY
+    // 65 536, 65 535, 65 537, 256 bytes long: the sizes at which the byte-string heads inside the Sig_structure change width
+    for target in [65_536usize, 65_535, 65_537, 256] {
+        use isomdl::definitions::device_engagement::{BleOptions, DeviceRetrievalMethod, PeripheralServerMode};
+        use isomdl::definitions::helpers::NonEmptyVec;
+        let mut rng = ctx.rng.clone();
+        let pki = Pki::generate(&mut rng);
+        let nsm = new_namespaces(&mut rng);
+        let (m, _) = issue(&mut rng, &pki, MDL, nsm, DigestAlgorithm::SHA256, false);
+        ctx.rng = rng;
+        let first: std::collections::BTreeMap<String, Vec<String>> = [(NS.to_string(), vec!["family_name".to_string()])].into_iter().collect();
+        let mut addr_len = if target > 1000 { 65_000usize } else { 10 };
+        for pass in 0..3 {
+            let drms = Some(NonEmptyVec::new(DeviceRetrievalMethod::BLE(BleOptions { peripheral_server_mode: Some(PeripheralServerMode { uuid: uuid::Uuid::from_bytes([7; 16]), ble_device_address: Some(vec![0x42; addr_len].into()) }), central_client_mode: None })));
+            let Ok(e) = establish(documents_of(vec![m.clone()]), drms, &first, Default::default(), Default::default()) else { break };
+            let de_bytes = base64::decode_config(e.qr.strip_prefix("mdoc:").unwrap(), base64::Config::new(base64::CharacterSet::UrlSafe, false)).unwrap();
+            let est = crate::runner::from_bytes(&e.establishment).unwrap();
+            let erk_bytes = match map_get(&est, "eReaderKey") { Some(ciborium::Value::Tag(24, b)) => b.as_bytes().unwrap().clone(), _ => vec![] };
+            let mut dev = e.dev;
+            let items: isomdl::presentation::device::RequestedItems = vec![isomdl::definitions::device_request::ItemsRequest { doc_type: MDL.to_string(), namespaces: namespaces_of(&first), request_info: None }];
+            let permitted: isomdl::presentation::device::PermittedItems = [(MDL.to_string(), first.clone().into_iter().collect())].into_iter().collect();
+            isomdl::presentation::device::SessionManager::prepare_response(&mut dev, &items, permitted);
+            let Some((_, payload)) = dev.get_next_signature_payload().map(|(u, p)| (u, p.to_vec())) else { break };
+            let dab_len = crate::runner::from_bytes(&payload).and_then(|v| v.as_array().and_then(|a| a.get(3).and_then(|x| x.as_bytes().map(|b| b.len())))).unwrap_or(0);
+            if dab_len != target && pass < 2 && dab_len > 0 { addr_len = (addr_len + target).saturating_sub(dab_len); continue; }
+            ctx.count(&format!("device_payload:device-authentication-bytes:{dab_len}"));
+            let prot = vec![0xa1u8, 0x01, 0x26];
+            let args = vec![bytes(&prot), bytes(&de_bytes), bytes(&erk_bytes), ciborium::Value::Null, text(MDL), bytes(&[0xa0])];
+            ctx.case("device_payload_tuned", json!({"device_authentication_bytes": dab_len, "target": target}), bytes(&payload),
+                Some(("c05.device_payload", args.clone())), Some(("c05.spec_payload", args)), true);
+            break;
+        }
+    }
     // issued device keys with a coordinate that begins with a zero octet (00 8x.., 00 0x.. in x, in y): honest responses
     for shape in 0..4u8 {
         let mut rng = ctx.rng.clone();
